@@ -391,6 +391,93 @@ def tblRt (sep : Str) (align : Bool) (nCol : Nat) (colNames : List Str) (rows : 
         | some _, _ => "-"
       (out, verdict)
 
+/-! ### distribution descriptions (explored: the model has no distribution classes; the verdict reads
+the implementation's trace — the description written, the distribution before and after) -/
+
+/-- the finite double with this bit pattern, as a rational -/
+def ratOfHex (hex : String) : Option Rat :=
+  match if hex.length == 16 then Hex.toNat? hex else none with
+  | none => none
+  | some bits =>
+    let neg := bits >>> 63 == 1
+    let e := (bits >>> 52) % 2048
+    let m := bits % (2 ^ 52)
+    if e == 2047 then none
+    else
+      let (mant, ex) : Nat × Int := if e == 0 then (m, -1074) else (m + 2 ^ 52, (e : Int) - 1075)
+      some ((if neg then -1 else 1) * ((mant : Nat) : Rat) * pow2 ex)
+
+/-- `|a - b| ≤ (1 + |a|) / scale` on two bit patterns -/
+def closeHex (scale : Nat) (a b : String) : Bool :=
+  a == b || (match ratOfHex a, ratOfHex b with
+    | some x, some y => decide (ratAbs (x - y) * (scale : Rat) ≤ 1 + ratAbs x)
+    | _, _ => false)
+
+/-- `family n v1 … vn p1 … pn P k name1 val1 …` -/
+structure DistTrace where
+  family : String
+  n : Nat
+  values : List String
+  probs : List String
+  params : List (String × String)
+
+def pairUp : List String → List (String × String)
+  | a :: b :: r => (a, b) :: pairUp r
+  | _ => []
+
+def parseDistTrace (t : List String) : Option DistTrace :=
+  match splitTok "P" t with
+  | [fam :: n :: nums, _k :: ps] =>
+    match nat? n with
+    | some n => if nums.length == 2 * n then some ⟨fam, n, nums.take n, nums.drop n, pairUp ps⟩ else none
+    | none => none
+  | _ => none
+
+/-- the parameters the two distributions have in common have the same values, bit for bit -/
+def sameParams (a b : DistTrace) : Bool :=
+  b.params.all (fun p => match a.params.lookup p.1 with
+    | some v => v == p.2
+    | none => true)
+
+/-- the textual layer: the description parses (KeyvalTools model) into the family name and an
+argument map; the families with a class count carry it as `n`; every plain argument is a numeral of
+the strict decimal grammar -/
+def distTextOk (desc : Str) (a : DistTrace) : Bool :=
+  match Keyval.parseProcedure desc with
+  | none => false
+  | some (name, args) =>
+    String.ofList name == a.family
+    && (match Keyval.mapFind "n".toList args with
+        | some v => v == (toString a.n).toList || a.family == "Invariant" || a.family == "Mixture"
+        | none => a.family == "Invariant" || a.family == "Mixture" || a.family == "Simple" || a.family == "Constant")
+    && args.all (fun kv =>
+        kv.2.contains '(' || (Number.parseDecimal '.' 'e' kv.2).isSome)
+
+def distVerdict (impl : Option (List String)) : String :=
+  match impl with
+  | none => "-"
+  | some t =>
+    match splitTok "/" t with
+    | [[hdesc], ta, tb] =>
+      match unhex hdesc, parseDistTrace ta with
+      | some desc, some a =>
+        if !distTextOk desc a then "FAIL:dist_text"
+        else if tb == ["exc:bpp"] then "FAIL:dist_reads_back"
+        else match parseDistTrace tb with
+          | none => "FAIL:parse"
+          | some b =>
+            if a.family != b.family || a.n != b.n then "FAIL:dist_family"
+            else
+              -- the parameters came back bit for bit: the classes agree to 1e-8 (the discretisation
+              -- is not bit-reproducible across construction histories); they were rounded by the
+              -- text (12 decimals, or the precision of the stream): to 1e-5
+              let scale := if sameParams a b then 100000000 else 100000
+              if (a.values.zip b.values).all (fun p => closeHex scale p.1 p.2)
+                 && (a.probs.zip b.probs).all (fun p => closeHex scale p.1 p.2) then "ok"
+              else if sameParams a b then "FAIL:dist_values" else "FAIL:dist_values_rounded"
+      | _, _ => "FAIL:parse"
+    | _ => "-"                                                    -- could not be built / written
+
 def stepRT (s : Unit) (op : List String) (impl : Option (List String)) : Unit × String × String :=
   match op with
   | ["st.rt", hs, hd, so, al, k] =>
@@ -415,6 +502,7 @@ def stepRT (s : Unit) (op : List String) (impl : Option (List String)) : Unit ×
           let (out, v) := tblRt sep (al == "1") nCol colNames rows impl
           (s, out, v)
     | _, _, _ => (s, "bad-op", "-")
+  | "dist.rt" :: _ => (s, "?", distVerdict impl)
   | _ => (s, "bad-op", "-")
 
 def step' (s : Unit) (op : List String) (impl : Option (List String)) : Unit × String × String :=
@@ -422,6 +510,7 @@ def step' (s : Unit) (op : List String) (impl : Option (List String)) : Unit × 
   | "st.rt" :: _ => stepRT s op impl
   | "nst.rt" :: _ => stepRT s op impl
   | "tbl.rt" :: _ => stepRT s op impl
+  | "dist.rt" :: _ => stepRT s op impl
   | _ => step s op impl
 
 def machine : Machine Unit := { init := fun _ => (), step := step' }
